@@ -486,12 +486,12 @@ func (ms *Modules) Process() []error {
 	for _, devmods := range []map[string]*Module{ms.Modules, ms.SubModules} {
 		// cache the modules we've handled since we have both modname and
 		// modname@revision-date; a submodule may bear the name of a module.
-		dvP := map[string]bool{}
+		dvP := map[*Module]bool{}
 		for _, m := range sortedModules(devmods) {
 			e := ToEntry(m)
-			if !dvP[e.Name] {
+			if !dvP[m] {
 				errs = append(errs, e.ApplyDeviate(ms.ParseOptions.DeviateOptions)...)
-				dvP[e.Name] = true
+				dvP[m] = true
 			}
 		}
 	}
